@@ -18,6 +18,11 @@ def run(ctx):
         cs.append(dict(seed=ctx.seed + 3500 + i, slots=[2, 8][i % 2], events=6, prims=3, ptype=[1, 2][i % 2], emax=[30, 300][i % 2],
                        emin=3, dets=0, fluct=0, scale=[0.01, 1][i % 2], order="none", inflight=0, maxsteps=60000, diag=0,
                        fixedstep=[0.25, 0.5, 1.25][i % 3], axial=1, field=0, msc=0))
+    # Urban MSC near boundaries: many low-energy e-/e+ (MSC step limit just below the physics limit is the rule there)
+    for i in range(4 if q else 24):
+        cs.append(dict(seed=ctx.seed + 3800 + i, slots=[8, 16][i % 2], events=2, prims=6, ptype=[1, 2][i % 2], emax=[5, 50][i % 2],
+                       emin=0.5, dets=0, fluct=i % 2, scale=[5, 50, 1][i % 3], order=["none", "reindex_status"][i % 2], inflight=0,
+                       maxsteps=60000, diag=0, msc=1, field=[0, 1][(i // 2) % 2]))
     tot, outs = coreloop.validate(ctx, cs, ["C05."], nshards=8)
     ctx.coverage.update({"states": st, "transitions": tr, "traces_validated_against_impl": tot["runs"],
                          "samples": coreloop.sample_records(outs, kinds=("Post",)), "evaluations": tot["steps"],
@@ -27,7 +32,7 @@ def run(ctx):
                                  "volume change only at a boundary step, status forward; distinct_nontrivial = distinct tracks",
                          "impl_stats": tot})
     ctx.assumptions += ["along-step variants: linear / uniform magnetic field x {no MSC, Urban MSC with a synthetic transport cross "
-                        "section} x mean / fluctuating loss; F-MSC-1 (MSC displacement in a field can exceed the step by <2%) is a known finding",
+                        "section} x mean / fluctuating loss; F-MSC-1 (with MSC in a field the straight-line displacement can exceed the step; scoped to chord <= sqrt(2) step) is a known finding",
                         "volume oracle: analytic point-in-box for test/geocel/data/two-boxes.org.json (points within 1e-6 of a face undecided)",
                         "orderings decided on dense ranks of the doubles; equalities on bit-exact tokens",
                         "zero-length physics-failure retry steps (C16) are exempt from the step-length clauses"]
